@@ -5,6 +5,8 @@ go 1.25.7
 require (
 	github.com/anishathalye/porcupine v1.3.0
 	github.com/nuetzliches/hookaido v0.0.0
+	modernc.org/libc v1.67.6
+	modernc.org/sqlite v1.45.0
 	pgregory.net/rapid v1.3.0
 )
 
@@ -20,10 +22,8 @@ require (
 	golang.org/x/sync v0.19.0 // indirect
 	golang.org/x/sys v0.41.0 // indirect
 	golang.org/x/text v0.33.0 // indirect
-	modernc.org/libc v1.67.6 // indirect
 	modernc.org/mathutil v1.7.1 // indirect
 	modernc.org/memory v1.11.0 // indirect
-	modernc.org/sqlite v1.45.0 // indirect
 )
 
 replace github.com/nuetzliches/hookaido => /repo
